@@ -411,19 +411,28 @@ pub fn forward_weak_refs(
                 format!("pause {}: forward_weak_refs called before process_weak_refs returned false", w.pause.n),
             );
         }
-        w.ephemerons.clone()
+        w.ephemerons
+            .iter()
+            .map(|e| {
+                let immortal_key = w.objs.get(&e.key).map(|o| o.sem == SEM_IMMORTAL).unwrap_or(false);
+                (e.clone(), immortal_key)
+            })
+            .collect::<Vec<_>>()
     });
     // Forward keys and values of live entries (the tracer returns the final addresses).
     let cur_pause = with_world(|w| w.pause.n);
     let mut upd: Vec<(usize, usize, usize)> = Vec::new();
     tracer_context.with_tracer(worker, |tracer| {
-        for (i, e) in eph.iter().enumerate() {
+        for (i, (e, immortal_key)) in eph.iter().enumerate() {
             if e.value_traced_in_pause != cur_pause {
                 continue; // dead entry: key was not reachable
             }
             let k = obj::raw_to_ref(e.key_addr).unwrap();
             let v = obj::raw_to_ref(e.value_addr).unwrap();
-            let nk = tracer.trace_object(k);
+            // An immortal key was taken as alive without asking; it may in fact be unreachable and
+            // then was never traced, so it must not be handed to the forwarding trace (which
+            // expects marked objects only).  It never moves anyway.
+            let nk = if *immortal_key { k } else { tracer.trace_object(k) };
             let nv = tracer.trace_object(v);
             upd.push((i, nk.to_raw_address().as_usize(), nv.to_raw_address().as_usize()));
         }
